@@ -53,6 +53,7 @@ class Cfg:
     clones: Tuple[int, int] = (1, 8)         # probability (num, den) of making some records value-equal EntV clones
     kw_vars: Tuple[int, int] = (0, 1)        # probability that a variable is declared as T(From(d), field=const)
     const_operands: Tuple[int, int] = (1, 12)  # probability that an operand of and/or is a constant / variable-free test
+    empty_dom: Tuple[int, int] = (1, 12)     # probability that a domain may come out empty (when dom[0] == 0)
     earlier_sharing: Tuple[int, int] = (0, 1)  # probability of earlier queries that share comparison objects with the query
     extra_templates: Tuple[str, ...] = ()    # additional weight for named shape templates (needs >= 2 variables)
 
@@ -315,6 +316,14 @@ def template_cond(draw, ctx: Ctx, force=None):
         if chance(draw, 1, 4):
             parts.reverse()
         return ["and", f(), parts]
+    if t == "not_and_then_other":
+        # not(a(x) & b(y)) & c(y) - the disjunction De Morgan makes of the negated conjunction stands left of a condition
+        # on y - or not((a(x) & b(y)) | not c(y))
+        x, y = (draw(st.permutations(list(range(n)))))[:2]
+        conj = ["and", f(), [leaf(draw, ctx, [x]), leaf(draw, ctx, [y])]]
+        if draw(st.booleans()):
+            return ["and", f(), [["not", draw(st.sampled_from(["not_", "~"])), conj], leaf(draw, ctx, [y])]]
+        return ["not", "not_", ["or", f(), [conj, ["not", "not_", leaf(draw, ctx, [y])]]]]
     if t == "and_left_or_then_other":
         # (s(x) | j(x, y)) & c(y): the disjunction on the LEFT passes several bindings of y for one x to a condition on y
         x, y = (draw(st.permutations(list(range(n)))))[:2]
@@ -420,9 +429,9 @@ def draw_domains(draw, cfg: Cfg, recs: List[dict], nvars: int):
                 continue
         hi = max(cfg.dom[0], min(cfg.dom[1], n, budget))
         lo = min(cfg.dom[0], hi)
-        if lo == 0 and hi >= 1 and not chance(draw, 1, 12):
+        if lo == 0 and hi >= 1 and not chance(draw, cfg.empty_dom[0], cfg.empty_dom[1]):
             lo = 1
-        size = draw(st.sampled_from(list(range(lo, hi + 1)) + [hi, hi, max(lo, hi - 1)]))
+        size = draw(st.sampled_from(list(range(lo, hi + 1)) + [hi, hi, max(lo, hi - 1)] + ([0, 0] if lo == 0 else [])))
         idxs = draw(st.permutations(list(range(n))))[:size]
         doms.append(list(idxs))
         var_dom.append(len(doms) - 1)
